@@ -1085,6 +1085,21 @@ func (w *world) checkDescs(ns *nodeState, ctx opctx) *hx.Failure {
 				if fmt.Sprint(sw) != fmt.Sprint(sg) || fmt.Sprint(sw) != fmt.Sprint(ssg) {
 					return hx.Failf("C19/desc/new-version-fields", "node %d: new version of %s has collection fields %v and schema fields %v, expected %v", ns.idx, cm.name, got, sgot, want)
 				}
+				// every field the source version had is carried over with an unchanged definition
+				if ps := snaps[cm.vers[v.parent].id]; ps != nil {
+					for _, pf := range ps.ver.Fields {
+						nf, ok := s.ver.GetFieldByName(pf.Name)
+						if !ok || hx.Canon(nf) != hx.Canon(pf) {
+							return hx.Failf("C19/desc/patch-altered-existing-field", "node %d: the patch adding %s to %s changed the collection field %s: was %s, in the new version %s", ns.idx, v.added, cm.name, pf.Name, hx.Canon(pf), hx.Canon(nf))
+						}
+					}
+					for _, pf := range ps.schema.Fields {
+						nf, ok := s.schema.GetFieldByName(pf.Name)
+						if !ok || hx.Canon(nf) != hx.Canon(pf) {
+							return hx.Failf("C19/desc/patch-altered-existing-field", "node %d: the patch adding %s to %s changed the schema field %s: was %s, in the new version %s", ns.idx, v.added, cm.name, pf.Name, hx.Canon(pf), hx.Canon(nf))
+						}
+					}
+				}
 				nc.colDesc[vi], nc.schDesc[vi] = s.col, s.sch
 			}
 			s := snaps[v.id]
